@@ -278,8 +278,8 @@ def eval_algebra(case):
 # =====================================================================================================
 # clause B: sweeper
 # =====================================================================================================
-def make_step(pb, sweeper, M, dt, t0, ignore_ic, update_f_evals, G_inv=None):
-    sp = {'quad_type': 'RADAU-RIGHT', 'num_nodes': M, 'initial_guess': 'spread', 'ignore_ic': ignore_ic, 'update_f_evals': update_f_evals}
+def make_step(pb, sweeper, M, dt, t0, ignore_ic, update_f_evals, G_inv=None, rule=None):
+    sp = {'quad_type': (rule or ('RADAU-RIGHT', 'LEGENDRE'))[0], 'node_type': (rule or ('RADAU-RIGHT', 'LEGENDRE'))[1], 'num_nodes': M, 'initial_guess': 'spread', 'ignore_ic': ignore_ic, 'update_f_evals': update_f_evals}
     if G_inv is not None:
         sp['G_inv'] = G_inv
     desc = {
@@ -332,7 +332,19 @@ def eval_sweeper(case):
     def gen(n, off):
         return np.array([vals[(off + i) % len(vals)] for i in range(n)], dtype=complex)
 
-    S0, lvl0 = make_step(pb, sweeper, M, dt, t0, ignore_ic, upd)
+    rule = tuple(case['rule']) if case.get('rule') else None
+    twin = None
+    if rule is not None:
+        # construction history: a sweeper on the default rule with the same node count (and, below, the same G_inv) exists first
+        base['rule'] = list(rule)
+        _, twin = make_step(pb, sweeper, M, dt, t0, ignore_ic, upd)
+    try:
+        S0, lvl0 = make_step(pb, sweeper, M, dt, t0, ignore_ic, upd, rule=rule)
+    except AssertionError:
+        if rule is None:
+            raise
+        res['classes']['refused:rule_not_diagonalisable'] += 1  # the library's own self-check refuses the rule
+        return res
     nodes = np.asarray(lvl0.sweep.coll.nodes, dtype=float)
     Q = O.lagrange_Q(nodes)
     A = pb['A_impl']
@@ -361,13 +373,21 @@ def eval_sweeper(case):
         for route in routes:
             if only is not None and only['route'] != route:
                 continue
-            if route == 'default':
-                lvl = lvl0
-            elif route == 'param':
-                _, lvl = make_step(pb, sweeper, M, dt, t0, ignore_ic, upd, G_inv=Gi_impl.copy())
-            else:
-                lvl = lvl0
-                lvl.sweep.set_G_inv(Gi_impl.copy())
+            try:
+                if twin is not None and Gi_impl is not None:
+                    twin.sweep.set_G_inv(Gi_impl.copy())
+                if route == 'default':
+                    lvl = lvl0
+                elif route == 'param':
+                    _, lvl = make_step(pb, sweeper, M, dt, t0, ignore_ic, upd, G_inv=Gi_impl.copy(), rule=rule)
+                else:
+                    lvl = lvl0
+                    lvl.sweep.set_G_inv(Gi_impl.copy())
+            except AssertionError:
+                if rule is None:
+                    raise
+                res['classes']['refused:rule_not_diagonalisable'] += 1  # the library's own self-check refuses Q G^-1 of this rule
+                continue
             P = lvl.prob
             sw = lvl.sweep
             ckey = dict(base, g=tag, route=route)
@@ -900,6 +920,12 @@ def sweeper_cases(tier, r):
                     dt, t0 = r.choice(DT_POOL), r.choice(T0_POOL)
                     for i in range(0, len(gv), G_CHUNK):  # split only for load balance
                         out.append({'clause': 'sweeper', 'spec': specs[pk], 'sweeper': sweeper, 'M': M, 'ignore_ic': ignore_ic, 'update_f_evals': upd, 'dt': dt, 't0': t0, 'values': vals, 'gvars': gv[i : i + G_CHUNK]})
+    # other collocation rules (the default one is RADAU-RIGHT on Legendre nodes), each built after a twin on the default rule
+    for sweeper, pk in plan[:1] + plan[-1:]:
+        for rule in (('RADAU-RIGHT', 'EQUID'), ('LOBATTO', 'LEGENDRE'), ('RADAU-RIGHT', 'CHEBY-1')):
+            for M in (2, 3) if tier == 'quick' else (2, 3, 4, 5):
+                dt, t0 = r.choice(DT_POOL), r.choice(T0_POOL)
+                out.append({'clause': 'sweeper', 'spec': specs[pk], 'sweeper': sweeper, 'M': M, 'ignore_ic': True, 'update_f_evals': False, 'dt': dt, 't0': t0, 'values': vals, 'gvars': gv[:G_CHUNK], 'rule': list(rule)})
     return out
 
 
